@@ -53,7 +53,7 @@ func opsVerifyVotes(r *rng) [][]uint64 {
 	}
 	return out
 }
-func opGate() []uint64   { return []uint64{7} }
+func opGate() []uint64 { return []uint64{7} }
 
 // every configuration reachable by one change from the tables must be in the table: build a closed table
 func closedCfgTab() [][]srv {
